@@ -76,6 +76,9 @@ INVALID = [
     ("same-input-field-two-violations", "type Query { f(i: In): Int } type O { y: Int } input In { __x: O }", 2),
     ("same-argument-two-violations", "type Query { f(__o: O): Int } type O { y: Int }", 2),
     ("covariance-and-missing", "type Query { a: A b: B } interface I { x: Int! y: Int } type A implements I { x: Int y: Int } type B implements I { x: Int! }", 2),
+    # one implementing field breaking the rule three ways: type, missing interface argument, additional required argument (hunt H4/10)
+    ("same-implementation-three-violations", "type Query { a: A } interface I { x(p: Int): String } type A implements I { x(q: Int!): Int }", 3),
+    ("same-implementation-type-and-argument-type", "type Query { a: A } interface I { x(p: Int): String } type A implements I { x(p: String): Int }", 2),
 ]
 
 VALID_EXTRA = [
